@@ -93,65 +93,162 @@ Lemma flat_map_incl {A} (f g : A -> list bytes) l h :
 Proof. rewrite !in_flat_map. intros H (x & Hx & Hh). eauto. Qed.
 
 Lemma native_scan_eq b :
-  native_scripts_vkey_hashes b = flat_map Ledger.ns_leaves (b_native_scripts b ++ b_attached b).
+  native_scripts_vkey_hashes b = flat_map Ledger.ns_leaves (all_scripts b).
 Proof.
-  unfold native_scripts_vkey_hashes. induction (b_native_scripts b ++ b_attached b) as [|s l IH]; cbn; [reflexivity|].
+  unfold native_scripts_vkey_hashes. induction (all_scripts b) as [|s l IH]; cbn; [reflexivity|].
   now rewrite ns_dfs_leaves, IH.
 Qed.
 
-Theorem required_complete b kh :
-  In kh (Ledger.required_key_hashes (tx_of b)) -> In kh (builder_required b).
+Lemma hash_in_spec SH l s : hash_in SH l s = true <-> In (SH s) (map SH l).
+Proof. unfold hash_in. apply memb_In. Qed.
+
+(* the scripts the builder ships are among all_scripts *)
+Lemma witness_scripts_incl SH b s : In s (witness_scripts SH b) -> In s (all_scripts b).
+Proof. unfold witness_scripts, scripts. rewrite !filter_In. tauto. Qed.
+
+(* a script of all_scripts is shipped, or a reference UTxO / the spent UTxO supplies a script of that hash *)
+Lemma all_scripts_split SH b s : In s (all_scripts b) ->
+  In s (witness_scripts SH b) \/ In (SH s) (map SH (b_reference_scripts b ++ b_input_scripts b)).
 Proof.
-  unfold Ledger.required_key_hashes, builder_required, tx_of; cbn [d_inputs d_collateral d_required_signers
-    d_native_scripts d_certs d_withdrawals d_voters].
+  intros H. unfold witness_scripts, scripts. rewrite !filter_In, map_app, in_app_iff, <- !hash_in_spec.
+  destruct (hash_in SH (b_reference_scripts b) s), (hash_in SH (b_input_scripts b) s); cbn; tauto.
+Qed.
+
+(* Completeness: what the ledger requires, the builder requires.  The native scripts that reach the transaction
+   through a reference UTxO (or the spent UTxO) are covered because the collector walks all_scripts, not scripts. *)
+Theorem required_complete SH b kh : refs_registered SH b ->
+  In kh (Ledger.required_key_hashes SH (tx_of SH b)) -> In kh (builder_required b).
+Proof.
+  intros REG.
+  unfold Ledger.required_key_hashes, builder_required; cbn [tx_of d_inputs d_collateral d_required_signers
+    d_native_scripts d_ref_scripts d_mint d_certs d_withdrawals d_voters].
   rewrite native_scan_eq.
   unfold input_vkey_hashes, required_signer_vkey_hashes, certificate_vkey_hashes, withdrawal_vkey_hashes, vote_vkey_hashes.
   rewrite !flat_map_app, !in_app_iff.
-  intros [H|[H|[H|[H|[H|[H|H]]]]]]; try tauto.
-  do 3 right. left. revert H. apply flat_map_incl. intros x. apply cert_keys_complete.
+  intros [H|[H|[H|[H|[H|[H|[H|H]]]]]]]; try tauto.
+  - right. right. left. apply in_flat_map in H as (s & Hs & Hk). apply in_flat_map. exists s. split; [|exact Hk].
+    now apply (witness_scripts_incl SH).
+  - right. right. left. apply in_flat_map in H as (s & Hs & Hk). apply in_flat_map. exists s. split; [|exact Hk].
+    unfold Ledger.ref_scripts_needed in Hs. apply filter_In in Hs as [Hs Hn]. apply memb_In in Hn.
+    apply REG; [exact Hs | exact Hn].
+  - do 3 right. left. revert H. apply flat_map_incl. intros x. apply cert_keys_complete.
 Qed.
 
-Theorem required_sound b kh :
+Theorem required_sound SH b kh : refs_used SH b ->
   In kh (builder_required b) ->
-  In kh (Ledger.required_key_hashes (tx_of b)) \/ In kh (legacy_registration_keys b).
+  In kh (Ledger.required_key_hashes SH (tx_of SH b)) \/ In kh (legacy_registration_keys b).
 Proof.
-  unfold Ledger.required_key_hashes, builder_required, tx_of, legacy_registration_keys; cbn [d_inputs d_collateral d_required_signers
-    d_native_scripts d_certs d_withdrawals d_voters].
+  intros USED.
+  unfold Ledger.required_key_hashes, builder_required, legacy_registration_keys; cbn [tx_of d_inputs d_collateral d_required_signers
+    d_native_scripts d_ref_scripts d_mint d_certs d_withdrawals d_voters].
   rewrite native_scan_eq.
   unfold input_vkey_hashes, required_signer_vkey_hashes, certificate_vkey_hashes, withdrawal_vkey_hashes, vote_vkey_hashes.
   rewrite !flat_map_app, !in_app_iff.
   intros [[H|H]|[H|[H|[H|[H|H]]]]]; try tauto.
-  apply in_flat_map in H as (x & Hx & Hh). apply cert_keys_sound in Hh as [Hh|Hh].
-  - left. do 4 right. left. apply in_flat_map. eauto.
-  - right. apply in_flat_map. eauto.
+  - apply in_flat_map in H as (s & Hs & Hk). left. do 3 right.
+    destruct (all_scripts_split SH b s Hs) as [W|R].
+    + left. apply in_flat_map. eauto.
+    + right. left. destruct (USED s Hs R) as [U1 U2]. apply in_flat_map. exists s. split; [|exact Hk].
+      unfold Ledger.ref_scripts_needed. apply filter_In. split; [exact U1 | now apply memb_In].
+  - apply in_flat_map in H as (x & Hx & Hh). apply cert_keys_sound in Hh as [Hh|Hh].
+    + left. do 5 right. left. apply in_flat_map. eauto.
+    + right. apply in_flat_map. eauto.
 Qed.
 
-Theorem required_complete_all : forall b kh,
-  (In kh (Ledger.required_key_hashes (tx_of b)) -> In kh (builder_required b))
-  /\ (In kh (builder_required b) -> In kh (Ledger.required_key_hashes (tx_of b)) \/ In kh (legacy_registration_keys b)).
-Proof. intros b kh. split; [apply required_complete | apply required_sound]. Qed.
+Theorem required_complete_all : forall SH b kh,
+  (refs_registered SH b -> In kh (Ledger.required_key_hashes SH (tx_of SH b)) -> In kh (builder_required b))
+  /\ (refs_used SH b -> In kh (builder_required b) ->
+        In kh (Ledger.required_key_hashes SH (tx_of SH b)) \/ In kh (legacy_registration_keys b)).
+Proof. intros SH b kh. split; [apply required_complete | apply required_sound]. Qed.
+
+(* the two conditions are decidable *)
+Lemma list_eqb_eq {A} (f : A -> A -> bool) l :
+  Forall (fun x => forall y, f x y = true -> x = y) l -> forall l', list_eqb f l l' = true -> l = l'.
+Proof.
+  induction 1 as [|x r Hx _ IH]; intros [|y r']; cbn; try discriminate; [reflexivity|].
+  rewrite andb_true_iff. intros [E1 E2]. f_equal; auto.
+Qed.
+Lemma ns_eqb_eq a : forall b, ns_eqb a b = true -> a = b.
+Proof.
+  induction a as [k|l IH|l IH|n l IH|t|t] using nscript_ind'; intros [k'|l'|l'|n' l'|t'|t']; cbn; try discriminate.
+  - intros E. apply bytes_eqb_eq in E. now subst.
+  - intros E. f_equal. now apply (list_eqb_eq ns_eqb).
+  - intros E. f_equal. now apply (list_eqb_eq ns_eqb).
+  - rewrite andb_true_iff, N.eqb_eq. intros [-> E]. f_equal. now apply (list_eqb_eq ns_eqb).
+  - rewrite N.eqb_eq. now intros ->.
+  - rewrite N.eqb_eq. now intros ->.
+Qed.
+Lemma ns_memb_In s l : ns_memb s l = true -> In s l.
+Proof.
+  unfold ns_memb. rewrite existsb_exists. intros (y & Hy & E). apply ns_eqb_eq in E. now subst.
+Qed.
+Lemma refs_registeredb_sound SH b : refs_registeredb SH b = true -> refs_registered SH b.
+Proof.
+  unfold refs_registeredb, refs_registered. rewrite forallb_forall. intros H s Hs Hn.
+  specialize (H s Hs). apply memb_In in Hn. rewrite Hn in H. cbn in H. now apply ns_memb_In.
+Qed.
+Lemma refs_usedb_sound SH b : refs_usedb SH b = true -> refs_used SH b.
+Proof.
+  unfold refs_usedb, refs_used. rewrite forallb_forall. intros H s Hs Hr.
+  specialize (H s Hs). apply hash_in_spec in Hr. rewrite Hr in H. cbn in H.
+  apply andb_true_iff in H as [H1 H2]. split; [now apply ns_memb_In | now apply memb_In].
+Qed.
 
 (* non-vacuity *)
 Definition kA : bytes := hx "aa". Definition kB : bytes := hx "bb". Definition kC : bytes := hx "cc".
 
 (* every source at once: the ledger set is non-empty and contained in the builder's *)
+(* a native script that reaches the transaction through a reference UTxO (add_minting_script(<UTxO>)) under policy f1,
+   next to an unrelated script (key 77) that another reference UTxO happens to carry *)
+Definition ns_ref_example : nscript := NsAll [NsPubkey (hx "10"); NsInvalidHereafter 500].
+Definition SH_example (s : nscript) : bytes :=
+  if ns_eqb s ns_ref_example then hx "f1" else if ns_eqb s (NsPubkey (hx "77")) then hx "f2" else hx "f3".
 Definition b_example : bdesc :=
   mkB [KeyH kA; ScriptH kC] [KeyH kB] [kC]
-      [NsNofK 1 [NsPubkey (hx "01"); NsAll [NsPubkey (hx "02")]]] [NsAny [NsPubkey (hx "03")]]
+      [NsNofK 1 [NsPubkey (hx "01"); NsAll [NsPubkey (hx "02")]]] [NsAny [NsPubkey (hx "03")]; ns_ref_example]
+      [ns_ref_example] [] [ns_ref_example; NsPubkey (hx "77")] [hx "f1"]
       [PoolRegistration (hx "04") [hx "05"; hx "06"]; UnregDRepCertificate (KeyH (hx "07")); StakeRegistration (KeyH (hx "08"));
        AuthCommitteeHotCertificate (KeyH (hx "09")) (KeyH (hx "0a"))]
       [KeyH (hx "0b"); ScriptH (hx "0c")] [VoterDRep (KeyH (hx "0d")); VoterPool (hx "0e"); VoterCommitteeHot (ScriptH (hx "0f"))] None.
 Example required_complete_nonvacuous :
-  map tohex (Ledger.required_key_hashes (tx_of b_example))
-  = ["aa"; "bb"; "cc"; "01"; "02"; "03"; "04"; "05"; "06"; "07"; "09"; "0b"; "0d"; "0e"]%string
-  /\ forallb (fun h => memb h (builder_required b_example)) (Ledger.required_key_hashes (tx_of b_example)) = true.
+  refs_registeredb SH_example b_example = true /\ refs_usedb SH_example b_example = true
+  /\ map tohex (Ledger.required_key_hashes SH_example (tx_of SH_example b_example))
+  = ["aa"; "bb"; "cc"; "01"; "02"; "03"; "10"; "04"; "05"; "06"; "07"; "09"; "0b"; "0d"; "0e"]%string
+  /\ forallb (fun h => memb h (builder_required b_example)) (Ledger.required_key_hashes SH_example (tx_of SH_example b_example)) = true.
 Proof. vm_compute. auto. Qed.
+
+(* without reference scripts both side conditions hold *)
+Lemma refs_conditions_trivial SH b :
+  b_reference_scripts b = [] -> b_input_scripts b = [] -> b_refin_scripts b = [] ->
+  refs_registered SH b /\ refs_used SH b.
+Proof.
+  intros E1 E2 E3. unfold refs_registered, refs_used. rewrite E1, E2, E3. cbn. split; intros s; tauto.
+Qed.
+
+(* the region the reference-script extension is about: the script is in all_scripts but not in scripts *)
+Definition b_ref_only : bdesc :=
+  mkB [KeyH kA] [] [] [] [ns_ref_example] [ns_ref_example] [] [ns_ref_example] [hx "f1"] [] [] [] None.
+Lemma reference_script_keys_required :
+  exists SH b kh, refs_registered SH b /\ refs_used SH b /\ witness_scripts SH b = [] /\
+    In kh (Ledger.required_key_hashes SH (tx_of SH b)) /\ In kh (builder_required b)
+    /\ ~ In kh (flat_map ns_dfs (scripts SH b)).
+Proof.
+  exists SH_example, b_ref_only, (hx "10").
+  split; [apply refs_registeredb_sound; vm_compute; reflexivity|].
+  split; [apply refs_usedb_sound; vm_compute; reflexivity|].
+  split; [vm_compute; reflexivity|].
+  split; [apply memb_In; vm_compute; reflexivity|].
+  split; [apply memb_In; vm_compute; reflexivity|].
+  apply memb_false. vm_compute. reflexivity.
+Qed.
 
 (* legacy registration: asked for by the builder, not needed by the ledger *)
 Lemma legacy_registration_overincluded :
-  exists b kh, In kh (builder_required b) /\ ~ In kh (Ledger.required_key_hashes (tx_of b)).
+  exists b kh, forall SH, refs_registered SH b /\ refs_used SH b /\
+    In kh (builder_required b) /\ ~ In kh (Ledger.required_key_hashes SH (tx_of SH b)).
 Proof.
-  exists (mkB [] [] [] [] [] [StakeRegistration (KeyH kA)] [] [] None), kA.
+  exists (mkB [] [] [] [] [] [] [] [] [] [StakeRegistration (KeyH kA)] [] [] None), kA. intros SH.
+  split; [intros s []|]. split; [intros s []|].
   split; cbn; tauto.
 Qed.
 
@@ -238,8 +335,8 @@ Proof.
 Qed.
 
 Example fake_count_nonvacuous :
-  b_witness_override b_example = None /\ lenN (dedup (builder_required b_example)) = 15
-  /\ lenN (fake_vkey_witnesses (witness_count b_example)) = 15.
+  b_witness_override b_example = None /\ lenN (dedup (builder_required b_example)) = 16
+  /\ lenN (fake_vkey_witnesses (witness_count b_example)) = 16.
 Proof. vm_compute. auto. Qed.
 
 (* the placeholder KEYS alone are not pairwise distinct (0 and 2 both give the all-zero key); only the
@@ -307,6 +404,7 @@ Proof.
 Qed.
 
 Section SignProofs.
+  Variable SH : nscript -> bytes.
   Variable H28 : bytes -> bytes.
   Variable H32 : bytes -> bytes.
   Variable ord_pub : bytes -> bytes.
@@ -319,8 +417,8 @@ Section SignProofs.
   Notation wit_of := (wit_of ord_pub ord_sign ext_sign).
   Notation sign_loop := (sign_loop H28 ord_pub ord_sign ext_sign).
   Notation sign_witnesses := (sign_witnesses H28 ord_pub ord_sign ext_sign).
-  Notation after_auto := (after_auto H28 ord_pub).
-  Notation build_and_sign_witnesses := (build_and_sign_witnesses H28 H32 ord_pub ord_sign ext_sign).
+  Notation after_auto := (after_auto SH H28 ord_pub).
+  Notation build_and_sign_witnesses := (build_and_sign_witnesses SH H28 H32 ord_pub ord_sign ext_sign).
 
   Definition wit_hash (w : wit) : bytes := H28 (w_vk w).
 
@@ -403,6 +501,27 @@ Section SignProofs.
     - now apply NoDup_wit_bytes.
   Qed.
 
+  (* the auto_required_signers step touches required_signers only *)
+  Lemma after_auto_cases auto keys b :
+    after_auto auto keys b = b \/ exists rs, after_auto auto keys b = set_required_signers b rs.
+  Proof.
+    unfold Witness.after_auto.
+    destruct (b_required_signers b); [|now left].
+    destruct auto as [[|]|]; [| now left |].
+    - destruct (negb match scripts SH b with [] => true | _ :: _ => false end).
+      + destruct keys; [now left | right; eauto].
+      + destruct (negb match all_scripts b with [] => true | _ :: _ => false end); [right; eauto | now left].
+    - destruct (negb match all_scripts b with [] => true | _ :: _ => false end); [right; eauto | now left].
+  Qed.
+  Lemma refs_registered_after auto keys b : refs_registered SH b -> refs_registered SH (after_auto auto keys b).
+  Proof.
+    intros H. destruct (after_auto_cases auto keys b) as [->|(rs & ->)]; [exact H|]. exact H.
+  Qed.
+  Lemma refs_used_after auto keys b : refs_used SH b -> refs_used SH (after_auto auto keys b).
+  Proof.
+    intros H. destruct (after_auto_cases auto keys b) as [->|(rs & ->)]; [exact H|]. exact H.
+  Qed.
+
   (* the same, for build_and_sign on a builder, against the LEDGER's requirement for the emitted transaction *)
   Theorem build_and_sign_spec : forall b auto force keys body,
     Forall wf_key keys ->
@@ -411,19 +530,21 @@ Section SignProofs.
     let ws := build_and_sign_witnesses b auto force keys body in
     (forall w, In w ws -> exists k, In k keys /\ w_vk w = vk32 k /\ w_sig w = sign_with k txid
                                     /\ (force = true \/ In (key_hash k) (builder_required b')))
-    /\ (forall kh, In kh (Ledger.required_key_hashes (tx_of b')) -> (exists k, In k keys /\ key_hash k = kh) ->
+    /\ (refs_registered SH b ->
+        forall kh, In kh (Ledger.required_key_hashes SH (tx_of SH b')) -> (exists k, In k keys /\ key_hash k = kh) ->
           exists w, In w ws /\ H28 (w_vk w) = kh)
     /\ (force = true -> forall k, In k keys -> exists w, In w ws /\ H28 (w_vk w) = key_hash k)
-    /\ (force = false -> forall w, In w ws ->
-          In (H28 (w_vk w)) (Ledger.required_key_hashes (tx_of b')) \/ In (H28 (w_vk w)) (legacy_registration_keys b'))
+    /\ (refs_used SH b -> force = false -> forall w, In w ws ->
+          In (H28 (w_vk w)) (Ledger.required_key_hashes SH (tx_of SH b')) \/ In (H28 (w_vk w)) (legacy_registration_keys b'))
     /\ NoDup (map (fun w => H28 (w_vk w)) ws)
     /\ NoDup (map wit_bytes ws).
   Proof.
     intros b auto force keys body WF b' txid ws.
     destruct (witnesses_spec (builder_required b') force keys txid) as (S1 & S2 & S3 & S4 & S5).
     fold ws in S1, S2, S3, S4, S5. repeat split; auto.
-    - intros kh Hl (k & Hk & <-). apply S2; auto. right. now apply required_complete.
-    - intros Ef w Hw. apply required_sound. now apply S3.
+    - intros REG kh Hl (k & Hk & <-). apply S2; auto. right. apply (required_complete SH); [|exact Hl].
+      now apply refs_registered_after.
+    - intros USED Ef w Hw. apply (required_sound SH); [now apply refs_used_after | now apply S3].
   Qed.
 End SignProofs.
 
@@ -534,6 +655,7 @@ Section EdProofs.
   Qed.
 
   (* ---------- every witness of the model of build_and_sign verifies ---------- *)
+  Variable SH : nscript -> bytes.
   Variable H28 : bytes -> bytes.
   Variable H32 : bytes -> bytes.
   Variable ord_pub : bytes -> bytes.
@@ -554,13 +676,13 @@ Section EdProofs.
 
   Theorem witnesses_valid : forall b auto force keys body,
     Forall wf_skey keys ->
-    forall w, In w (build_and_sign_witnesses H28 H32 ord_pub ord_sign ext_sign_model b auto force keys body) ->
+    forall w, In w (build_and_sign_witnesses SH H28 H32 ord_pub ord_sign ext_sign_model b auto force keys body) ->
       length (w_vk w) = 32%nat /\ ed_verify (w_vk w) (H32 body) (w_sig w).
   Proof.
     intros b auto force keys body WF w Hw.
     assert (WF' : Forall wf_key keys).
     { apply Forall_forall. intros k Hk. apply wf_skey_wf_key. rewrite Forall_forall in WF. auto. }
-    destruct (build_and_sign_spec H28 H32 ord_pub ord_sign ext_sign_model b auto force keys body WF') as (S1 & _).
+    destruct (build_and_sign_spec SH H28 H32 ord_pub ord_sign ext_sign_model b auto force keys body WF') as (S1 & _).
     destruct (S1 w Hw) as (k & Hk & Ev & Es & _). rewrite Ev, Es.
     rewrite Forall_forall in WF. specialize (WF k Hk). destruct k as [s mt|p mt]; cbn in *.
     - split; [apply ord_pub_length | now apply ord_sign_verifies].
@@ -607,17 +729,18 @@ Example witnesses_valid_nonvacuous :
   let H28 := fun b : bytes => firstn 28 b in
   let H32 := fun b : bytes => firstn 32 b in
   let keys := [SkOrd (le 32 7) 1; SkExt (le 128 0) 11] in
-  let b := mkB [KeyH (firstn 28 (le 32 0))] [] [] [] [] [] [] [] None in
+  let SH := fun _ : nscript => hx "f1" in
+  let b := mkB [KeyH (firstn 28 (le 32 0))] [] [] [] [] [] [] [] [] [] [] [] None in
   Forall (wf_skey unit (fun _ => tt) enc) keys
   /\ Forall wf_key keys
-  /\ length (build_and_sign_witnesses H28 H32 ord_pub ord_sign (ext_sign_model unit (fun _ => tt) enc (fun _ => 0))
+  /\ length (build_and_sign_witnesses SH H28 H32 ord_pub ord_sign (ext_sign_model unit (fun _ => tt) enc (fun _ => 0))
                b None false keys (le 40 9)) = 1%nat
-  /\ forall w, In w (build_and_sign_witnesses H28 H32 ord_pub ord_sign (ext_sign_model unit (fun _ => tt) enc (fun _ => 0))
+  /\ forall w, In w (build_and_sign_witnesses SH H28 H32 ord_pub ord_sign (ext_sign_model unit (fun _ => tt) enc (fun _ => 0))
                        b None false keys (le 40 9)) ->
        length (w_vk w) = 32%nat
        /\ ed_verify unit tt (fun _ _ => tt) (fun _ => tt) (fun _ => Some tt) (fun _ => 0) (w_vk w) (H32 (le 40 9)) (w_sig w).
 Proof.
-  intros enc ord_pub ord_sign H28 H32 keys b.
+  intros enc ord_pub ord_sign H28 H32 keys SH b.
   assert (W : Forall (wf_skey unit (fun _ => tt) enc) keys).
   { constructor; [vm_compute; reflexivity|]. constructor; [|constructor].
     split; [vm_compute; reflexivity|]. split; vm_compute; reflexivity. }
